@@ -1,7 +1,8 @@
 (* C08: the readings of the keyword tables order like their sort keys; the payload-order fallback; the
-   sort key is the named vector of the named measure; the population / difference-subtotal witness. *)
+   sort key is the named vector of the named measure; the population proportions carry NaN at difference
+   subtotals, so the population key orders like the public population counts (+ the former witness). *)
 From Coq Require Import List Sorting Permutation ZArith String Bool Lia Arith QArith Lqa.
-From CC Require Import Base.XQ Base.SortX Spec.OrderSpec Model.Collator Model.SortKeys
+From CC Require Import Base.XQ Base.ListX Base.SortX Spec.OrderSpec Model.Collator Model.SortKeys
   Proofs.OrderCollate Proofs.OrderExplicit Proofs.OrderIds Proofs.OrderVisible Proofs.OrderSbv
   Proofs.SortKeysProofs.
 Import ListNotations.
@@ -431,21 +432,339 @@ Proof.
 Qed.
 
 (* --- the population keyword and difference subtotals ---------------------------------------------------- *)
-(* population_counts is NaN for a difference subtotal, but the helper sorts the subtotal group on the
-   population PROPORTION, which is a number there: the NaN-valued subtotal is then not "last in payload
-   order".  Witness: ascending, subtotals -2 (a difference, proportion 1/10, public NaN) and -1
-   (proportion 3/20, public 150 for population 1000). *)
-Theorem population_difference_refuted :
-  exists (d : dimension) (s : sortspec) (skeys spubs : list xq),
-    (forall k, k < List.length skeys ->
-       nth k spubs NaN = NaN \/ nth k spubs NaN =x= xmul (nth k skeys NaN) (Fin 1000)) /\
-    ~ StronglySorted (weakly_precedes (s_desc s) (skeyf spubs))
-        (filter (fun z => (z <? 0)%Z) (sbv_display d s [] (map VNum skeys) [])).
+(* population_counts is NaN for a difference subtotal; since /repo e7676546 so is the population
+   PROPORTION the helpers sort on ([population_blocks], [population_vblocks]): the sort key of the
+   `population` keyword has the NaN set of the public value, for every element and every subtotal. *)
+Lemma nan_where_length flags v : List.length (nan_where flags v) = List.length v.
+Proof. revert flags. induction v as [|x t IH]; intros flags; simpl; auto. Qed.
+
+Lemma nth_tl_flags (flags : list bool) k : nth k (tl flags) false = nth (S k) flags false.
+Proof. destruct flags; simpl; auto. destruct k; reflexivity. Qed.
+
+Lemma hd_flags (flags : list bool) : hd false flags = nth 0 flags false.
+Proof. destruct flags; reflexivity. Qed.
+
+Theorem nan_where_nth flags v k :
+  nth k (nan_where flags v) NaN = if nth k flags false then NaN else nth k v NaN.
 Proof.
-  exists (mkDim [] false [] None [] false), (mkSort false [] []),
-         [Fin (1 # 10); Fin (3 # 20)]%Q, [NaN; Fin 150].
-  split.
-  - intros [|[|k]] H; simpl in *; auto; try lia. right. reflexivity.
-  - vm_compute. intros H. inversion H as [|a l S F]; subst. inversion F as [|b m W R]; subst.
-    exact W.
+  revert flags k. induction v as [|x t IH]; intros flags k; simpl.
+  - destruct k; destruct (nth _ flags false); reflexivity.
+  - destruct k as [|k].
+    + rewrite hd_flags. reflexivity.
+    + rewrite IH, nth_tl_flags. reflexivity.
+Qed.
+
+Lemma nth_map_nan (r : list xq) j : nth j (map (fun _ => NaN) r) NaN = NaN.
+Proof. revert j. induction r as [|x t IH]; intros [|j]; simpl; auto. Qed.
+
+Lemma nan_rows_nth flags m k :
+  nth k (nan_rows flags m) []
+  = if nth k flags false then map (fun _ => NaN) (nth k m []) else nth k m [].
+Proof.
+  revert flags k. induction m as [|r t IH]; intros flags k; simpl.
+  - destruct k; destruct (nth _ flags false); reflexivity.
+  - destruct k as [|k].
+    + rewrite hd_flags. reflexivity.
+    + rewrite IH, nth_tl_flags. reflexivity.
+Qed.
+
+Lemma nan_rows_length flags m : List.length (nan_rows flags m) = List.length m.
+Proof. revert flags. induction m as [|r t IH]; intros flags; simpl; auto. Qed.
+
+Lemma mnth_nan_cols flags m i j :
+  mnth (nan_cols flags m) i j = if nth j flags false then NaN else mnth m i j.
+Proof.
+  unfold mnth, vnth, nan_cols. change (@nil xq) with (nan_where flags []) at 1.
+  rewrite map_nth. apply nan_where_nth.
+Qed.
+
+Lemma mnth_nan_rows flags m i j :
+  mnth (nan_rows flags m) i j = if nth i flags false then NaN else mnth m i j.
+Proof.
+  unfold mnth, vnth. rewrite nan_rows_nth. destruct (nth i flags false); auto. apply nth_map_nan.
+Qed.
+
+(* the blocks of the population proportions, cell by cell *)
+Theorem population_blocks_spec drows dcols b :
+  let p := population_blocks drows dcols b in
+  mb_base p = mb_base b /\
+  (forall i j, mnth (mb_scols p) i j = if nth j dcols false then NaN else mnth (mb_scols b) i j) /\
+  (forall k j, mnth (mb_srows p) k j = if nth k drows false then NaN else mnth (mb_srows b) k j) /\
+  (forall k j, mnth (mb_inter p) k j
+               = if nth k drows false || nth j dcols false then NaN else mnth (mb_inter b) k j).
+Proof.
+  simpl. split; [reflexivity|split; [|split]]; intros.
+  - apply mnth_nan_cols.
+  - apply mnth_nan_rows.
+  - rewrite mnth_nan_cols, mnth_nan_rows.
+    destruct (nth k drows false), (nth j dcols false); reflexivity.
+Qed.
+
+Theorem population_vblocks_spec diffs base subs :
+  fst (population_vblocks diffs (base, subs)) = base /\
+  List.length (snd (population_vblocks diffs (base, subs))) = List.length subs /\
+  forall k, vnth (snd (population_vblocks diffs (base, subs))) k
+            = if nth k diffs false then NaN else vnth subs k.
+Proof.
+  simpl. split; [reflexivity|split; [apply nan_where_length|]]. intros k. apply nan_where_nth.
+Qed.
+
+(* the key vectors of the helpers, cell by cell *)
+Theorem column_of_nth m i j : nth i (column_of m j) (VNum NaN) = VNum (mnth m i j).
+Proof.
+  unfold column_of, mnth, vnth. revert i. induction m as [|r t IH]; intros [|i]; simpl; auto.
+  - destruct j; reflexivity.
+  - destruct j; reflexivity.
+Qed.
+
+Theorem row_of_nth m i j : nth j (row_of m i) (VNum NaN) = VNum (mnth m i j).
+Proof. unfold row_of, mnth, vnth. apply (map_nth VNum). Qed.
+
+Theorem key_vectors_pointwise m i j :
+  nth i (column_of m j) (VNum NaN) = VNum (mnth m i j)
+  /\ nth j (row_of m i) (VNum NaN) = VNum (mnth m i j).
+Proof. split; [apply column_of_nth|apply row_of_nth]. Qed.
+
+(* only the `population` keyword reads the population proportions *)
+Theorem population_keyword :
+  filter (fun r => String.eqb (kw_prop r) population_prop) matrix_table
+  = [mkKw "population" population_prop "population_counts" TimesPopulation]
+  /\ filter (fun r => String.eqb (kw_prop r) population_prop) strand_table
+     = [mkKw "population" population_prop "population_counts" TimesPopulation]
+  /\ forall drows dcols diffs (raw : menv) (vraw : venv) p,
+       p <> population_prop ->
+       slice_measures drows dcols raw p = raw p /\ strand_measures diffs vraw p = vraw p.
+Proof.
+  split; [reflexivity|split; [reflexivity|]].
+  intros drows dcols diffs raw vraw p N. apply String.eqb_neq in N.
+  unfold slice_measures, strand_measures. rewrite N. auto.
+Qed.
+
+Lemma population_row_matrix :
+  find_kw matrix_table "population"
+  = Some (mkKw "population" population_prop "population_counts" TimesPopulation).
+Proof. reflexivity. Qed.
+Lemma population_row_strand :
+  find_kw strand_table "population"
+  = Some (mkKw "population" population_prop "population_counts" TimesPopulation).
+Proof. reflexivity. Qed.
+
+Lemma slice_measures_population drows dcols raw b' :
+  slice_measures drows dcols raw population_prop = Some b' ->
+  exists b, raw population_prop = Some b /\ b' = population_blocks drows dcols b.
+Proof.
+  unfold slice_measures. rewrite String.eqb_refl.
+  destruct (raw population_prop) as [b|]; simpl; intros H; inversion H. eauto.
+Qed.
+
+(* what a sort by `population` sorts on: the proportion, and NaN at every difference subtotal - of the
+   sorted dimension (the subtotal group) and of the opposing one (a key taken at a difference) *)
+Theorem population_rows_key_by_element o opp drows dcols raw marg labels sublabels vals svals :
+  o_measure o = Some "population"%string ->
+  rows_values o opp (slice_measures drows dcols raw) marg labels sublabels MOppElement = Ok (Some (vals, svals)) ->
+  exists b x j,
+    raw population_prop = Some b /\
+    o_element_id o = Some x /\ j < List.length (p_ids opp) /\ nth j (p_ids opp) INone = x /\
+    (forall i, nth i vals (VNum NaN) = VNum (mnth (mb_base b) i j)) /\
+    (forall k, nth k svals (VNum NaN)
+               = VNum (if nth k drows false then NaN else mnth (mb_srows b) k j)).
+Proof.
+  intros K H. apply rows_key_by_element in H.
+  destruct H as (k & r & b' & x & j & Km & T & _ & B & X & L & N & _ & V & S).
+  rewrite K in Km. inversion Km; subst k. rewrite population_row_matrix in T. inversion T; subst r.
+  apply slice_measures_population in B. destruct B as (b & R & ->).
+  exists b, x, j. repeat split; auto.
+  - intros i. rewrite V. apply column_of_nth.
+  - intros i. rewrite S, column_of_nth. f_equal. apply mnth_nan_rows.
+Qed.
+
+Theorem population_rows_key_by_insertion o opp drows dcols raw marg labels sublabels vals svals :
+  o_measure o = Some "population"%string ->
+  p_array opp = false ->
+  rows_values o opp (slice_measures drows dcols raw) marg labels sublabels MOppInsertion = Ok (Some (vals, svals)) ->
+  exists b z j,
+    raw population_prop = Some b /\
+    o_insertion_id o = Some (IInt z) /\ j < List.length (p_ins_ids opp) /\
+    nth j (p_ins_ids opp) 0%Z = z /\
+    (forall i, nth i vals (VNum NaN)
+               = VNum (if nth j dcols false then NaN else mnth (mb_scols b) i j)) /\
+    (forall k, nth k svals (VNum NaN)
+               = VNum (if nth k drows false || nth j dcols false then NaN
+                       else mnth (mb_inter b) k j)).
+Proof.
+  intros K A H. apply rows_key_by_insertion in H; auto.
+  destruct H as (k & r & b' & z & j & Km & T & _ & B & X & L & N & V & S).
+  rewrite K in Km. inversion Km; subst k. rewrite population_row_matrix in T. inversion T; subst r.
+  apply slice_measures_population in B. destruct B as (b & R & ->).
+  destruct (population_blocks_spec drows dcols b) as (_ & Sc & _ & In).
+  exists b, z, j. repeat split; auto.
+  - intros i. rewrite V, column_of_nth. f_equal. apply Sc.
+  - intros i. rewrite S, column_of_nth. f_equal. apply In.
+Qed.
+
+Theorem population_columns_key_by_element o opp drows dcols raw labels sublabels vals svals :
+  o_measure o = Some "population"%string ->
+  columns_values o opp (slice_measures drows dcols raw) labels sublabels MOppElement = Ok (Some (vals, svals)) ->
+  exists b x i,
+    raw population_prop = Some b /\
+    o_element_id o = Some x /\ i < List.length (p_ids opp) /\ nth i (p_ids opp) INone = x /\
+    (forall j, nth j vals (VNum NaN) = VNum (mnth (mb_base b) i j)) /\
+    (forall j, nth j svals (VNum NaN)
+               = VNum (if nth j dcols false then NaN else mnth (mb_scols b) i j)).
+Proof.
+  intros K H. apply columns_key_by_element in H.
+  destruct H as (k & r & b' & x & i & Km & T & _ & B & X & L & N & V & S).
+  rewrite K in Km. inversion Km; subst k. rewrite population_row_matrix in T. inversion T; subst r.
+  apply slice_measures_population in B. destruct B as (b & R & ->).
+  exists b, x, i. repeat split; auto.
+  - intros j. rewrite V. apply row_of_nth.
+  - intros j. rewrite S, row_of_nth. f_equal. apply mnth_nan_cols.
+Qed.
+
+Theorem population_columns_key_by_insertion o opp drows dcols raw labels sublabels vals svals :
+  o_measure o = Some "population"%string ->
+  columns_values o opp (slice_measures drows dcols raw) labels sublabels MOppInsertion = Ok (Some (vals, svals)) ->
+  exists b z k,
+    raw population_prop = Some b /\
+    o_insertion_id o = Some (IInt z) /\ k < List.length (p_ins_ids opp) /\
+    nth k (p_ins_ids opp) 0%Z = z /\
+    (forall j, nth j vals (VNum NaN)
+               = VNum (if nth k drows false then NaN else mnth (mb_srows b) k j)) /\
+    (forall j, nth j svals (VNum NaN)
+               = VNum (if nth k drows false || nth j dcols false then NaN
+                       else mnth (mb_inter b) k j)).
+Proof.
+  intros K H. apply columns_key_by_insertion in H.
+  destruct H as (kw & r & b' & z & k & Km & T & _ & B & X & L & N & V & S).
+  rewrite K in Km. inversion Km; subst kw. rewrite population_row_matrix in T. inversion T; subst r.
+  apply slice_measures_population in B. destruct B as (b & R & ->).
+  destruct (population_blocks_spec drows dcols b) as (_ & _ & Sr & In).
+  exists b, z, k. repeat split; auto.
+  - intros j. rewrite V, row_of_nth. f_equal. apply Sr.
+  - intros j. rewrite S, row_of_nth. f_equal. apply In.
+Qed.
+
+Theorem population_strand_key o diffs (raw : venv) labels sublabels vals svals :
+  o_measure o = Some "population"%string ->
+  strand_values o (strand_measures diffs raw) labels sublabels MUnivariate = Ok (Some (vals, svals)) ->
+  exists base subs,
+    raw population_prop = Some (base, subs) /\ vals = map VNum base /\
+    List.length svals = List.length subs /\
+    forall k, nth k svals (VNum NaN) = VNum (if nth k diffs false then NaN else vnth subs k).
+Proof.
+  intros K H. apply strand_key_by_measure in H.
+  destruct H as (k & r & base & subs' & Km & T & _ & B & V & S).
+  rewrite K in Km. inversion Km; subst k. rewrite population_row_strand in T. inversion T; subst r.
+  unfold strand_measures in B. rewrite String.eqb_refl in B. simpl kw_prop in B.
+  destruct (raw population_prop) as [[b0 s0]|] eqn:R; simpl in B; [|discriminate].
+  injection B as E1 E2. subst base subs' vals svals.
+  exists b0, s0. repeat split; auto.
+  - rewrite map_length. apply nan_where_length.
+  - intros k. rewrite (map_nth VNum). f_equal. apply nan_where_nth.
+Qed.
+
+(* THE POSITIVE STATEMENT that replaces the refutation: with [key] = the proportion, NaN at differences
+   (the repaired code) and [pub] = proportion * population * fraction, NaN at differences (the public
+   population_counts), the public value READS the key as the keyword table says - differences
+   included - so it has the NaN set and the weak order of the key *)
+Theorem population_difference_reads (c : Q) (diff : Z -> bool) (prop key pub : Z -> xq) :
+  (forall z, key z = if diff z then NaN else prop z) ->
+  (forall z, pub z =x= if diff z then NaN else xmul (prop z) (Fin c)) ->
+  forall z, reads TimesPopulation c (key z) (pub z).
+Proof.
+  intros Hk Hp z. simpl. eapply xeq_trans; [apply Hp|]. rewrite Hk.
+  destruct (diff z); reflexivity.
+Qed.
+
+Theorem population_difference_same_order (c : Q) (diff : Z -> bool) (prop key pub : Z -> xq) :
+  (0 < c)%Q ->
+  (forall z, key z = if diff z then NaN else prop z) ->
+  (forall z, pub z =x= if diff z then NaN else xmul (prop z) (Fin c)) ->
+  same_order key pub.
+Proof.
+  intros Hc Hk Hp. apply (reads_same_order TimesPopulation c); auto.
+  apply (population_difference_reads c diff prop); auto.
+Qed.
+
+(* the subtotal group of a sort by population, differences included: weakly sorted in the public
+   population counts, the NaN-valued (difference) subtotals last in payload order *)
+Theorem population_display_subtotals d s vals (c : Q) (diffs : list bool) (props spubs : list xq)
+        empties :
+  (0 < c)%Q -> List.length props = List.length spubs ->
+  (forall k, k < List.length props ->
+     nth k spubs NaN =x= if nth k diffs false then NaN else xmul (nth k props NaN) (Fin c)) ->
+  StronglySorted (weakly_precedes (s_desc s) (skeyf spubs))
+    (filter (fun z => (z <? 0)%Z)
+            (sbv_display d s vals (map VNum (nan_where diffs props)) empties)).
+Proof.
+  intros Hc L P. apply surrogate_display_subtotals; [rewrite nan_where_length; exact L|].
+  apply (reads_same_order TimesPopulation c); auto.
+  intros z. unfold skeyf. rewrite nan_where_length, <- L.
+  set (k := Z.to_nat (z + Z.of_nat (List.length props))). simpl. rewrite nan_where_nth.
+  destruct (lt_dec k (List.length props)) as [I|O].
+  - eapply xeq_trans; [apply (P k I)|]. destruct (nth k diffs false); reflexivity.
+  - rewrite (nth_overflow spubs) by lia. rewrite (nth_overflow props) by lia.
+    destruct (nth k diffs false); reflexivity.
+Qed.
+
+(* a key taken at an opposing DIFFERENCE insertion is NaN for every vector: the sorted dimension
+   keeps its payload order (body and subtotal group), as the all-NaN public values ask *)
+Theorem all_nan_payload_order d s (vals svals : list sval) empties :
+  (forall i, sval_nan (nth i vals (VNum NaN)) = true) ->
+  (forall k, sval_nan (nth k svals (VNum NaN)) = true) ->
+  StronglySorted Z.lt (filter (free_base (all_fixed d s)) (sbv_display d s vals svals empties))
+  /\ StronglySorted Z.lt (filter (fun z => (z <? 0)%Z) (sbv_display d s vals svals empties)).
+Proof.
+  intros Hv Hs. split.
+  - eapply SS_impl_in; [|apply display_body_monotone].
+    intros a b _ _. unfold may_precede, base_val. rewrite !Hv. auto.
+  - eapply SS_impl_in; [|apply display_subtotals_monotone].
+    intros a b _ _. unfold may_precede, sub_val. rewrite !Hs. auto.
+Qed.
+
+(* --- the former witness of finding C08-population-difference-subtotals ---------------------------------- *)
+(* 3x2 counts [[3,1],[1,1],[4,0]] (table proportions /10), row subtotals "1 minus 2" (a difference) and
+   "1 or 2", column subtotal "1 minus 2" (a difference), population 1000.
+   (1) rows ascending by the population of column id 1: public subtotal values NaN, 400 - the valued
+       subtotal -1 now stands before the NaN-valued difference -2 (the former code, sorting on the
+       unmasked proportions 2/10, 4/10, gave -2 before -1);
+   (2) rows descending by the population of the column DIFFERENCE (insertion id 1): every public value
+       is NaN - payload order now (formerly the order of the hidden proportions). *)
+Local Open Scope string_scope.
+Definition fw_dim : dimension :=
+  mkDim [mkElem (IInt 1) false DNone; mkElem (IInt 2) false DNone; mkElem (IInt 3) false DNone]
+        false
+        [mkIns (Some 1%Z) (IStr "bottom") true false [IInt 1; IInt 2];
+         mkIns (Some 2%Z) (IStr "bottom") true false [IInt 1; IInt 2]]
+        None [] false.
+Definition fw_props : mblocks :=
+  mkBlocks [[Fin (3 # 10); Fin (1 # 10)]; [Fin (1 # 10); Fin (1 # 10)]; [Fin (4 # 10); Fin 0]]%Q
+           [[Fin (2 # 10)]; [Fin 0]; [Fin (4 # 10)]]%Q
+           [[Fin (2 # 10); Fin 0]; [Fin (4 # 10); Fin (2 # 10)]]%Q
+           [[Fin (2 # 10)]; [Fin (2 # 10)]]%Q.
+Definition fw_raw : menv := single_menv population_prop (Some fw_props).
+Definition fw_opp : opposing := mkOpp [IInt 1; IInt 2] [1%Z] false.
+Definition fw_by_element : order_req :=
+  mkOrd (Some "opposing_element") (Some "population") None (Some (IInt 1)) None
+        (mkSort false [] []) [].
+Definition fw_by_insertion : order_req :=
+  mkOrd (Some "opposing_insertion") (Some "population") None None (Some (IInt 1))
+        (mkSort true [] []) [].
+Definition fw_order (o : order_req) (env : menv) : res (list Z) :=
+  rows_order fw_dim o fw_opp env (fun _ => None) [] [] [] false.
+
+Theorem population_difference_former_witness :
+  let repaired := slice_measures [true; false] [true] fw_raw in
+  fw_order fw_by_element repaired = Ok [1; 0; 2; -1; -2]%Z /\
+  fw_order fw_by_element fw_raw = Ok [1; 0; 2; -2; -1]%Z /\
+  StronglySorted (weakly_precedes false (skeyf [NaN; Fin 400])) [-1; -2]%Z /\
+  ~ StronglySorted (weakly_precedes false (skeyf [NaN; Fin 400])) [-2; -1]%Z /\
+  fw_order fw_by_insertion repaired = Ok [-2; -1; 0; 1; 2]%Z /\
+  fw_order fw_by_insertion fw_raw = Ok [-1; -2; 2; 0; 1]%Z.
+Proof.
+  cbv zeta. split; [vm_compute; reflexivity|]. split; [vm_compute; reflexivity|].
+  split; [|split; [|split; vm_compute; reflexivity]].
+  - repeat constructor.
+  - intros H. inversion H as [|a l S F]; subst. inversion F as [|b m W R]; subst.
+    vm_compute in W. exact W.
 Qed.
